@@ -338,14 +338,15 @@ fn map_model(cfg: &DfCfg, r: &mut Prng) -> Model {
             if game {
                 // DDRace game layers share the game layer's dimensions; their own tile data index sits
                 // after the name, at a position that depends on the kind
-                for (k, (flag, tile_size)) in [(2i32, 2usize), (4, 6), (16, 4), (32, 2)].iter().enumerate() {
+                for (k, (flag, tile_size)) in [(2i32, 2usize), (4, 6), (16, 4), (32, 2), (8, 4)].iter().enumerate() {
                     if !r.chance(1, 3) {
                         continue;
                     }
                     let zeroes = add_data(vec![0u8; (w * h * 4) as usize]);
                     let special = add_data(r.bytes((w * h) as usize * tile_size));
                     let mut d = vec![0, 2, 0, 3, w, h, *flag, 255, 255, 255, 255, -1, 0, -1, zeroes, -2139062144, -2139062144, -2139062144, -1, -1, -1, -1, -1];
-                    let pos = 18 + match k { 0 => 0, 1 => 1, 2 => 3, _ => 4 };
+                    // extra fields after the name: tele, speedup, front, switch, tune
+                    let pos = 18 + match k { 0 => 0, 1 => 1, 2 => 3, 3 => 4, _ => 2 };
                     d[pos] = special;
                     layers.push(MItem { type_id: 5, id: layer_no as u16, data: d });
                     layer_no += 1;
@@ -357,6 +358,15 @@ fn map_model(cfg: &DfCfg, r: &mut Prng) -> Model {
             // fix up the game group's layer count
             let g = groups.last_mut().unwrap();
             g.data[6] += extra_in_game_group;
+        }
+        if r.chance(1, 4) {
+            // a DDRace sounds layer (current type 10 with item version 2, or the legacy type 9 with version 1) in its own group
+            let legacy = r.chance(1, 3);
+            let n_sources = r.range(0, 3) as i32;
+            let sources = add_data(r.bytes(n_sources as usize * 52));
+            groups.push(MItem { type_id: 4, id: (2 * n_groups + gk) as u16, data: vec![3, 0, 0, 100, 100, layer_no as i32, 1, 0, 0, 0, 0, 0, -2139062144, -2139062144, -2139062144] });
+            layers.push(MItem { type_id: 5, id: layer_no as u16, data: vec![0, if legacy { 9 } else { 10 }, 0, if legacy { 1 } else { 2 }, n_sources, sources, -1, -2139062144, -2139062144, -2139062144] });
+            layer_no += 1;
         }
         if r.chance(1, 3) {
             // a quads layer in its own group
@@ -524,26 +534,78 @@ impl DfEngine {
                 let _ = reader.item_type_items(t).count();
             }
             let data: Vec<Result<Vec<u8>, String>> = reader.data_iter().map(|d| d.map_err(|e| format!("{:?}", e))).collect();
+            // every other accessor of the file-level reader must agree with the iterators
+            let mut inconsistent: Option<String> = None;
+            let _ = reader.version();
+            if reader.num_items() != items.len() {
+                inconsistent = Some(format!("num_items() = {} but items() yields {}", reader.num_items(), items.len()));
+            }
+            if reader.num_item_types() != types.len() {
+                inconsistent = Some(format!("num_item_types() = {} but item_types() yields {}", reader.num_item_types(), types.len()));
+            }
+            for (k, &t) in types.iter().enumerate() {
+                if k < reader.num_item_types() && reader.item_type(k) != t {
+                    inconsistent = Some(format!("item_type({}) = {} but item_types() yields {}", k, reader.item_type(k), t));
+                }
+                let range = reader.item_type_indices(t);
+                let by_range: Vec<(u16, u16)> = range.clone().filter(|&i| i < reader.num_items()).map(|i| (reader.item(i).type_id, reader.item(i).id)).collect();
+                let by_iter: Vec<(u16, u16)> = reader.item_type_items(t).map(|i| (i.type_id, i.id)).collect();
+                if by_range != by_iter {
+                    inconsistent = Some(format!("item_type_indices({}) = {:?} disagrees with item_type_items", t, range));
+                }
+            }
+            for (i, it) in items.iter().enumerate().take(400) {
+                let v = reader.item(i);
+                if v.type_id != it.type_id || v.id != it.id || v.data != &it.data[..] {
+                    inconsistent = Some(format!("item({}) differs from the {}th element of items()", i, i));
+                }
+                match reader.find_item(it.type_id, it.id) {
+                    Some(f) if f.type_id == it.type_id && f.id == it.id => {}
+                    other => inconsistent = Some(format!("find_item({}, {}) returned {:?} although such an item exists", it.type_id, it.id, other.map(|f| (f.type_id, f.id)))),
+                }
+            }
+            if reader.num_data() != data.len() {
+                inconsistent = Some(format!("num_data() = {} but data_iter() yields {}", reader.num_data(), data.len()));
+            }
+            for i in 0..reader.num_data().min(data.len()).min(8) {
+                let again = reader.read_data(i).map_err(|e| format!("{:?}", e));
+                if again.is_ok() != data[i].is_ok() || (again.is_ok() && again.as_ref().ok() != data[i].as_ref().ok()) {
+                    inconsistent = Some(format!("read_data({}) differs from the {}th element of data_iter()", i, i));
+                }
+            }
+            let _ = reader.debug_dump();
+            if let Some(x) = inconsistent {
+                return Err(format!("INCONSISTENT {}", x));
+            }
             Ok((types, items, data))
         });
         let _ = std::fs::remove_file(&path);
         r
     }
 
-    fn map_traverse(cfg: &DfCfg, bytes: &[u8]) -> Result<u32, PanicInfo> {
+    fn map_traverse(cfg: &DfCfg, bytes: &[u8]) -> Result<(u32, MapSeen), PanicInfo> {
         // the map layer reads through datafile::Reader over a real file
         let dir = std::env::temp_dir();
         let path = dir.join(format!("tw2sim-map-{}-{:016x}-{:?}.map", std::process::id(), cfg.seed, std::thread::current().id()).replace(['(', ')'], ""));
         if std::fs::write(&path, bytes).is_err() {
-            return Ok(0);
+            return Ok((0, MapSeen::default()));
         }
         let r = guard(|| {
             let mut n = 0u32;
-            let df = match libtw2_datafile::Reader::open(&path) {
-                Ok(d) => d,
-                Err(_) => return 0,
+            let mut seen = MapSeen::default();
+            // both ways to open a map: through an opened datafile, or by path
+            let mut m = if cfg.seed & 2 == 0 {
+                let df = match libtw2_datafile::Reader::open(&path) {
+                    Ok(d) => d,
+                    Err(_) => return (0, seen),
+                };
+                libtw2_map::reader::Reader::from_datafile(df)
+            } else {
+                match libtw2_map::reader::Reader::open(&path) {
+                    Ok(m) => m,
+                    Err(_) => return (0, seen),
+                }
             };
-            let mut m = libtw2_map::reader::Reader::from_datafile(df);
             let _ = m.check_version();
             let _ = m.version();
             if let Ok(info) = m.info() {
@@ -572,49 +634,98 @@ impl DfEngine {
                     n += 1;
                 }
                 if let Some(t) = gl.teleport() {
-                    let _ = m.tele_layer_tiles(t).map(|_| n += 1);
+                    let ok = m.tele_layer_tiles(t).map(|_| n += 1).is_ok();
+                    seen.special.push((2, ok));
                 }
                 if let Some(t) = gl.speedup() {
-                    let _ = m.speedup_layer_tiles(t).map(|_| n += 1);
+                    let ok = m.speedup_layer_tiles(t).map(|_| n += 1).is_ok();
+                    seen.special.push((4, ok));
                 }
                 if let Some(t) = gl.front() {
-                    let _ = m.layer_tiles(t).map(|_| n += 1);
+                    let ok = m.layer_tiles(t).map(|_| n += 1).is_ok();
+                    seen.special.push((8, ok));
                 }
                 if let Some(t) = gl.switch() {
-                    let _ = m.switch_layer_tiles(t).map(|_| n += 1);
+                    let ok = m.switch_layer_tiles(t).map(|_| n += 1).is_ok();
+                    seen.special.push((16, ok));
                 }
                 if let Some(t) = gl.tune() {
-                    let _ = m.tune_layer_tiles(t).map(|_| n += 1);
+                    let ok = m.tune_layer_tiles(t).map(|_| n += 1).is_ok();
+                    seen.special.push((32, ok));
                 }
             }
             for gi in m.group_indices() {
-                if let Ok(g) = m.group(gi) {
-                    n += 1;
-                    for li in g.layer_indices.clone() {
-                        if let Ok(l) = m.layer(li) {
-                            n += 1;
-                            if let libtw2_map::reader::LayerType::Quads(q) = l.t {
-                                let _ = m.reader.read_data(q.data);
-                                n += 1;
-                            }
-                            if let libtw2_map::reader::LayerType::Tilemap(t) = l.t {
-                                if let Some(normal) = t.type_.to_normal() {
-                                    let idx = t.tiles(normal.data);
-                                    if m.layer_tiles(idx).is_ok() {
-                                        n += 1;
+                match m.group(gi) {
+                    Ok(g) => {
+                        n += 1;
+                        seen.groups_ok += 1;
+                        for li in g.layer_indices.clone() {
+                            match m.layer(li) {
+                                Ok(l) => {
+                                    n += 1;
+                                    seen.layers_ok += 1;
+                                    match l.t {
+                                        libtw2_map::reader::LayerType::Quads(q) => {
+                                            let _ = m.reader.read_data(q.data);
+                                            n += 1;
+                                            seen.kinds[0] += 1;
+                                        }
+                                        libtw2_map::reader::LayerType::Tilemap(t) => {
+                                            seen.kinds[1] += 1;
+                                            let _ = t.type_.tiles();
+                                            if let Some(normal) = t.type_.to_normal() {
+                                                let idx = t.tiles(normal.data);
+                                                match m.layer_tiles(idx) {
+                                                    Ok(a) => {
+                                                        n += 1;
+                                                        let (h, w) = a.dim();
+                                                        if h as u64 != t.height as u64 || w as u64 != t.width as u64 {
+                                                            seen.errors.push(format!("layer {}: tile array is {}x{} but the layer says {}x{}", li, w, h, t.width, t.height));
+                                                        }
+                                                    }
+                                                    Err(e) => seen.errors.push(format!("layer {}: layer_tiles failed: {:?}", li, e)),
+                                                }
+                                                match m.layer_tiles_raw(normal.data) {
+                                                    Ok(tiles) => {
+                                                        let flat: Vec<u8> = tiles.iter().flat_map(|t| [t.index, t.flags, t.skip, t.reserved]).collect();
+                                                        seen.tiles.push((normal.data, flat));
+                                                    }
+                                                    Err(e) => seen.errors.push(format!("layer {}: layer_tiles_raw failed: {:?}", li, e)),
+                                                }
+                                            }
+                                        }
+                                        libtw2_map::reader::LayerType::DdraceSounds(sl) => {
+                                            seen.kinds[2] += 1;
+                                            let _ = m.reader.read_data(sl.data);
+                                        }
                                     }
-                                    let _ = m.layer_tiles_raw(normal.data);
                                 }
+                                Err(e) => seen.errors.push(format!("layer {}: {:?}", li, e)),
                             }
                         }
                     }
+                    Err(e) => seen.errors.push(format!("group {}: {:?}", gi, e)),
                 }
             }
-            n
+            (n, seen)
         });
         let _ = std::fs::remove_file(&path);
         r
     }
+}
+
+/// What the map traversal saw (compared with the model for well-formed maps).
+#[derive(Default)]
+struct MapSeen {
+    groups_ok: usize,
+    layers_ok: usize,
+    /// quads, tilemap, sounds
+    kinds: [usize; 3],
+    /// (data index, tile bytes) of every normal / game tile layer
+    tiles: Vec<(usize, Vec<u8>)>,
+    /// (tile-layer flag, tiles readable) of the special game layers
+    special: Vec<(i32, bool)>,
+    errors: Vec<String>,
 }
 
 impl Engine for DfEngine {
@@ -840,6 +951,10 @@ impl Engine for DfEngine {
                 Ok(Err(e)) => {
                     if e.starts_with("harness:") {
                         ctx.count("probe_tempfile_unavailable");
+                    } else if let Some(x) = e.strip_prefix("INCONSISTENT ") {
+                        if !damaged {
+                            return Some(v("accessors-disagree", &[("layer", "datafile-file")], format!("datafile::Reader over a real file, well-formed version {} file: {}", cfg.version, x)));
+                        }
                     } else if !damaged {
                         return Some(v("well-formed-file-rejected", &[("layer", "datafile-file"), ("prefix", if cfg.file_prefix > 0 { "yes" } else { "no" })], format!("datafile::Reader over a real file (prefix {} bytes, tables+items {} bytes) rejected a well-formed version {} file: {}", cfg.file_prefix, lay.data_start, cfg.version, e)));
                     }
@@ -875,7 +990,7 @@ impl Engine for DfEngine {
         // map layer over a real file with the same (possibly damaged) content
         if cfg.map && fail_at.is_none() && shrink == 0 {
             match DfEngine::map_traverse(cfg, &bytes) {
-                Ok(n) => {
+                Ok((n, seen)) => {
                     ctx.count("probe_map_traversed");
                     if n >= 1000 {
                         ctx.count("probe_map_game_layers_ok");
@@ -889,6 +1004,34 @@ impl Engine for DfEngine {
                     }
                     if !damaged {
                         ctx.count("probe_map_intact_read");
+                        // a well-formed map: every group and layer parses, kinds and tile data equal what was stored
+                        let want_groups = m.items.iter().filter(|i| i.type_id == 4).count();
+                        let layers: Vec<&MItem> = m.items.iter().filter(|i| i.type_id == 5).collect();
+                        let want_kinds = [layers.iter().filter(|l| l.data[1] == 3).count(), layers.iter().filter(|l| l.data[1] == 2).count(), layers.iter().filter(|l| l.data[1] == 9 || l.data[1] == 10).count()];
+                        let mut want_special: Vec<i32> = layers.iter().filter(|l| l.data[1] == 2 && l.data[6] > 1).map(|l| l.data[6]).collect();
+                        want_special.sort();
+                        let mut got_special: Vec<i32> = seen.special.iter().map(|s| s.0).collect();
+                        got_special.sort();
+                        let problem = if let Some(e) = seen.errors.first() {
+                            Some(format!("{} ({} problems)", e, seen.errors.len()))
+                        } else if seen.groups_ok != want_groups || seen.layers_ok != layers.len() {
+                            Some(format!("{} groups / {} layers parsed, {} / {} stored", seen.groups_ok, seen.layers_ok, want_groups, layers.len()))
+                        } else if seen.kinds != want_kinds {
+                            Some(format!("layer kinds (quads, tilemap, sounds) read {:?}, stored {:?}", seen.kinds, want_kinds))
+                        } else if got_special != want_special || seen.special.iter().any(|s| !s.1) {
+                            Some(format!("special game layers read {:?}, stored {:?}", seen.special, want_special))
+                        } else {
+                            seen.tiles.iter().find(|(di, flat)| m.data.get(*di).map(|d| d != flat).unwrap_or(true)).map(|(di, flat)| format!("tiles of data block {}: {} bytes read, {:?} stored, or contents differ", di, flat.len(), m.data.get(*di).map(|d| d.len())))
+                        };
+                        if let Some(p) = problem {
+                            return Some(v("stored-content-differs", &[("layer", "map")], format!("well-formed map: {}", p)));
+                        }
+                        if seen.kinds[2] > 0 {
+                            ctx.count("probe_map_sounds_layer");
+                        }
+                        if seen.special.iter().any(|s| s.0 == 8) {
+                            ctx.count("probe_map_front_layer");
+                        }
                     }
                 }
                 Err(p) => {
